@@ -190,6 +190,12 @@ func xzCases(c *hx.Ctx, seed int64) []xzCase {
 		cases = append(cases, xzCase{G: XZCfg{LC: p[0], LP: p[1], PB: p[2], DictCap: []int{4096, 65536}[k%2], BufSize: []int{4096, 273}[k/2%2], Check: 1, Matcher: k % 2},
 			Hist: []string{"W", "W", "C"}, Fixed: [][]byte{data[:9000+k], data[9000+k:]}, Tag: "maxlenruns"})
 	}
+	// (4f) volume of range-coder output: 2 MiB (8 and 64 MiB thorough) of data that compresses to ~96 %
+	for k, n := range c.PickInts([]int{2 << 20}, []int{8 << 20, 64 << 20}) {
+		data := MakeData("noise200", n, seed+int64(k))
+		cases = append(cases, xzCase{G: XZCfg{LC: 3, LP: 0, PB: 2, DictCap: 1 << 16, BufSize: 4096, Check: 1, Matcher: 0},
+			Hist: []string{"W", "C"}, Fixed: [][]byte{data}, Tag: "rcvolume"})
+	}
 	// (5) ring-wrap family: small dictionaries and look-ahead buffers, inputs several times
 	// longer than the encoder's ring (dictionary + look-ahead + 1) with matches at every
 	// distance around the wrap point; both match finders; written in odd-sized pieces
